@@ -3,12 +3,12 @@
 # usage: twin_matrix.sh [twin ids...]   (worktrees /tmp/wtq1..3, /tmp/wtm, /tmp/wtv must exist at /repo HEAD)
 OUT=${OUT:-/tmp/twin_matrix.log}
 : > $OUT
-if [ $# -gt 0 ]; then printf "%s\n" "$@" > /tmp/tm.list; else ls /verif/seeded/_twins | grep -- "-t[0-9]" > /tmp/tm.list; fi
+if [ $# -gt 0 ]; then printf "%s\n" "$@" > /tmp/tm.list; else ls /verif/seeded/${TWDIR:-_twins} | grep -- "-[tu][0-9]" > /tmp/tm.list; fi
 i=0
 for W in /tmp/wtq1 /tmp/wtq2 /tmp/wtq3 /tmp/wtm /tmp/wtv; do
   ( awk -v i=$i 'NR % 5 == i' /tmp/tm.list | while read t; do
       git -C $W checkout -q -- . && git -C $W clean -fdq
-      git -C $W apply /verif/seeded/_twins/$t/patch.diff 2>/dev/null || { echo "TW $t apply-failed" >> $OUT; continue; }
+      git -C $W apply /verif/seeded/${TWDIR:-_twins}/$t/patch.diff 2>/dev/null || { echo "TW $t apply-failed" >> $OUT; continue; }
       NOISE=""
       for c in C01 C02 C03 C05 C07 C08 C09 C10 C11 C12 C13 C14 C15 C16 C17 C18 C19 C20; do
         out=$(/verif/check $c --repo $W --no-evidence 2>&1 | grep -E "^FAIL|^ANALYSIS" | cut -c1-160 | head -2 | tr '\n' '|')
